@@ -211,6 +211,7 @@ def run_line(seed, out, bump):
         out['sets']['coresidence_pairs'].update(f'{a}|{b}' for a, b in sim.cores)
         skey = kernel.sha([kernel.sha([j['rows'][:4] for j in jobs]), schedule])
         out['sets']['interleavings'].add(skey)
+        out['log'].append([sched.name, skey, sim.steps, kernel.sha(repr(sim.results))])
         if sim.probes.get('switch_while_both_in_flight', 0) >= 1:
             out['sigs'].append('line:' + skey)
         if len(out['samples']) < 2:
@@ -324,6 +325,7 @@ def run_stage(run, out, bump):
     except Exception:
         bump('scenes_discarded')
         return
+    out['log'].append(kernel.sha(repr(trajs)))
     for cls in classes:
         bump(f'probe.scene_{cls}')
     if n == 2:
@@ -344,6 +346,7 @@ def run_stage(run, out, bump):
         bump('fault.adversarial_stage_order')
         key = f'stage:{kernel.sha([j["rows"][:3] for j in jobs])}:{"".join(map(str, order))}'
         out['sets']['interleavings'].add(key)
+        out['log'].append([key, kernel.sha(repr(bad))])
         if len(set(order)) > 1 and order != tuple(sorted(order)):
             out['sigs'].append(key)
         if len(out['samples']) < 1:
@@ -385,7 +388,7 @@ def warmup():
 
 def execute(run):
     out = {'n_eval': 0, 'sigs': [], 'counters': {}, 'samples': [], 'steps': 0, 'violations': [],
-           'sets': {'interleavings': set(), 'coresidence_pairs': set()}}
+           'sets': {'interleavings': set(), 'coresidence_pairs': set()}, 'log': []}
     cnt = out['counters']
 
     def bump(key, n=1):
